@@ -17,6 +17,7 @@
   Narrowings made explicit:
     * `uint16_t data_base, header_size, offset, track_header_offset`: `% 65536`; a header that
       does not fit 16 bits makes the C++ write outside `sequence_data` → `FErr.headerWrap`;
+      a stream offset above 65535 is an `InputError` (`stream_offset()`, `FErr.seqTooLarge`);
     * `sequence_data[k] = x` stores `x % 256`;
     * `index_byte(uint32_t)`: an index above `Tables.mdsFile_indexMax` is an `InputError`
       (`FErr.indexRange`); the operand bytes themselves are written by `Model/MdsCodec` (`% 256`);
@@ -42,6 +43,7 @@ inductive FErr
   | codec (e : CErr)
   | indexRange
   | headerWrap
+  | seqTooLarge                -- a stream offset does not fit 16 bits (InputError)
   | bankIndex
   | riff (e : Riff.Err)
   deriving Repr
@@ -237,14 +239,17 @@ def parseTracks (song : Song) (d : DataInfo) :
 /-- the ids `parse_track` is called on: keys of the track map below 16, ascending -/
 def channelIds (song : Song) : List Nat := (song.tracks.map (·.1)).filter (· < 16)
 
-/-- streams converted one after the other; the first failure wins -/
-def encodeStreams (enc : List MEv → Except FErr (List Nat)) : List (List MEv) → Except FErr (List (List Nat))
-  | [] => .ok []
-  | e :: es =>
+/-- streams converted one after the other from `sequence_data.size() = pos`; before each one
+`stream_offset()` throws when `pos - data_base` does not fit 16 bits; the first failure wins -/
+def encodeStreams (enc : List MEv → Except FErr (List Nat)) (dataBase : Nat) :
+    Nat → List (List MEv) → Except FErr (List (List Nat))
+  | _, [] => .ok []
+  | pos, e :: es =>
+    if pos - dataBase > 65535 then .error .seqTooLarge else
     match enc e with
     | .error x => .error x
     | .ok b =>
-      match encodeStreams enc es with
+      match encodeStreams enc dataBase (pos + b.length) es with
       | .error x => .error x
       | .ok bs => .ok (b :: bs)
 
@@ -297,13 +302,13 @@ def assemble (c : Conv) (tl : List (Nat × List MEv)) (volume : Option String) :
   let dataBase := 4 + 4 * tl.length
   let headerSize := dataBase + (nS + nM + nD) * 2
   if headerSize ≥ 65536 then .error .headerWrap else
-  match encodeStreams (convertTrackChk nS nM) (tl.map (·.2)) with
+  match encodeStreams (convertTrackChk nS nM) dataBase headerSize (tl.map (·.2)) with
   | .error x => .error x
   | .ok ts =>
-    match encodeStreams (convertTrackChk nS nM) c.subList with
+    match encodeStreams (convertTrackChk nS nM) dataBase (headerSize + ts.flatten.length) c.subList with
     | .error x => .error x
     | .ok ss =>
-      match encodeStreams convertMacroTrack c.macroList with
+      match encodeStreams convertMacroTrack dataBase (headerSize + ts.flatten.length + ss.flatten.length) c.macroList with
       | .error x => .error x
       | .ok ms =>
         let tStarts := startsFrom headerSize ts
